@@ -11,7 +11,8 @@ Numerical statement checks on the implementation run as support and as the falsi
   order            || state_diff(pva, correct_pva(pva, s x)) - T s x ||  falls >= 1.8 orders per decade of s
   restore          state_diff(correct_pva(perturb_pva(pva, s e), T_int s e), pva) falls >= 1.8 orders per decade
   both also on states whose roll / heading lies within a few error magnitudes of +-180 deg, with errors that carry
-  the angle across the cut in either direction, and with a first-order bound (residual <= 1/4 of the applied
+  the angle across the cut in either direction, on positions at the +-180 deg meridian, and with a first-order bound
+  evaluated over 8 decades of magnitude, down to phi ~ 2e-10 rad / 1e-4 m / 1e-6 m/s (residual <= 1/4 of the applied
   error, per block and scale) so that a missing wrap (+-360 deg) at a single scale cannot hide
 Margins are >= 100x above rounding (floors below which a block is not judged).
 """
@@ -48,12 +49,16 @@ def rand_x(rng, n):
     u = [rng.uniform(-1, 1) for _ in range(n)]
     npos = 3 if n == 9 else 2
     s = [1000.0] * npos + [10.0] * npos + [0.002] * 3   # m, m/s, rad at scale 1
+    if rng.random() < 0.2:                                # a pure attitude error: the V x phi term stands alone
+        s = [0.0] * (2 * npos) + [0.002] * 3
     return [a * b for a, b in zip(u, s)]
 
 
 def rand_e(rng, with_altitude):
     e = [rng.uniform(-1000, 1000) for _ in range(3)] + [rng.uniform(-10, 10) for _ in range(3)] + \
         [rng.uniform(-0.1, 0.1) for _ in range(3)]
+    if rng.random() < 0.2:                                # a pure attitude error
+        e = [0.0] * 6 + e[6:]
     if not with_altitude:
         e[2] = 0.0
         e[5] = 0.0
@@ -77,16 +82,24 @@ def _slopes(res):
     return bad
 
 
-def _first_order(res, bound):
+# first-order (relative) test: also at very small magnitudes, down to |x| ~ 1e-10 (phi 2e-10 rad, 1e-4 m, 1e-6 m/s)
+FINE_SCALES = [1e-4, 1e-5, 1e-6, 1e-7]
+# rounding floors of the state difference itself, calibrated on the unchanged tree (900 states incl. the +-180 deg
+# cases, worst observed: position 1.6e-9 m, velocity 8e-14 m/s at |v| <= 520, angles 3.4e-13 deg): >= 30x above it
+FLOOR1 = np.array([1e-7] * 3 + [5e-12] * 3 + [2e-11] * 3)
+
+
+def _first_order(res, bound, scales):
     """res[i], bound[i]: 9-vectors per scale.  The residual of every block must stay below a quarter of the
-    (cancellation-free) first-order magnitude of that block: a wrong wrap (+-360 deg), sign or row shows here
-    even when it occurs at a single scale only."""
+    (cancellation-free) first-order magnitude of that block, plus the rounding floor: a wrong wrap (+-360 deg),
+    sign or row, or a first-order term that is dropped below some magnitude, shows here even when it occurs at a
+    single scale only."""
     bad = []
-    for i in range(len(SCALES)):
+    for i in range(len(scales)):
         for b, sl in enumerate((slice(0, 3), slice(3, 6), slice(6, 9))):
-            lim = 0.25 * float(np.max(bound[i][sl])) + 100 * FLOOR[sl].max()
+            lim = 0.25 * float(np.max(bound[i][sl])) + FLOOR1[sl].max()
             if float(np.max(res[i][sl])) > lim:
-                bad.append((b, i, float(np.max(res[i][sl])), lim))
+                bad.append((b, scales[i], float(np.max(res[i][sl])), lim))
     return bad
 
 
@@ -113,15 +126,15 @@ def eval_case(kind, p):
         T = em.transform_to_output(pva)
         x0 = np.array(p['x'])
         res, bound = [], []
-        for s in SCALES:
+        for s in SCALES + FINE_SCALES:
             c = em.correct_pva(pva, s * x0)
             d = transform.compute_state_difference(pva, c)
             if list(d.index) != ERR:
                 return False, dict(index=list(d.index))
             res.append(np.abs(d.values.astype(float) - T @ (s * x0)))
             bound.append(np.abs(T) @ np.abs(s * x0))
-        bad = _slopes(res)
-        bad1 = _first_order(res, bound)
+        bad = _slopes(res[:len(SCALES)])
+        bad1 = _first_order(res, bound, SCALES + FINE_SCALES)
         return not bad and not bad1, dict(slopes_failed=bad, first_order_failed=bad1,
                                           residuals=[list(map(float, r)) for r in res])
     if kind == 'restore':
@@ -129,7 +142,7 @@ def eval_case(kind, p):
         res, bound = [], []
         T = np.abs(InsErrorModel(True).transform_to_output(pva))
         Ti = np.abs(np.linalg.inv(InsErrorModel(True).transform_to_output(pva)))
-        for s in SCALES:
+        for s in SCALES + FINE_SCALES:
             e = pd.Series(s * e0, index=ERR)
             pp = sim.perturb_pva(pva, e)
             x = em.transform_to_internal(pp) @ e.values
@@ -137,8 +150,8 @@ def eval_case(kind, p):
             d = transform.compute_state_difference(c, pva)
             res.append(np.abs(d.values.astype(float)))
             bound.append(T @ (Ti @ np.abs(e.values)))       # cancellation-free size of the applied error
-        bad = _slopes(res)
-        bad1 = _first_order(res, bound)
+        bad = _slopes(res[:len(SCALES)])
+        bad1 = _first_order(res, bound, SCALES + FINE_SCALES)
         return not bad and not bad1, dict(slopes_failed=bad, first_order_failed=bad1,
                                           residuals=[list(map(float, r)) for r in res])
     raise ValueError(kind)
